@@ -31,11 +31,11 @@ package analysis
 // bytes.Runes (and the conversion []rune(string(s))) decodes s rune by rune: invalid bytes become
 // U+FFFD, a valid rune, and occupy ONE byte. runeOff(s, k) is the byte offset of the k-th rune.
 //@ uf runeOff(s []byte, k int) int
+//@ spec opaque decodedAs(s []byte, r []rune) bool = runeOff(s, 0) == 0 && runeOff(s, len(r)) == len(s) && forall(k, 0, len(r)+1, 0 <= runeOff(s, k) && runeOff(s, k) <= len(s)) && \
+//@     forall(k, 0, len(r), runeOff(s, k+1) - runeOff(s, k) >= 1 && runeOff(s, k+1) - runeOff(s, k) <= 4 && decSize(s[runeOff(s, k):]) == runeOff(s, k+1) - runeOff(s, k) && \
+//@             (utf8.RuneLen(r[k]) == runeOff(s, k+1) - runeOff(s, k) || (r[k] == utf8.RuneError && runeOff(s, k+1) - runeOff(s, k) == 1)))
 //@ assume func bytes.Runes(s)
-//@   ensures fresh(result) && len(result) == utf8.RuneCount(s) && forall(k, 0, len(result), runeValid(result[k]))
-//@   ensures runeOff(s, 0) == 0 && runeOff(s, len(result)) == len(s) && forall(k, 0, len(result)+1, 0 <= runeOff(s, k) && runeOff(s, k) <= len(s))
-//@   ensures forall(k, 0, len(result), runeOff(s, k+1) - runeOff(s, k) >= 1 && runeOff(s, k+1) - runeOff(s, k) <= 4 && decSize(s[runeOff(s, k):]) == runeOff(s, k+1) - runeOff(s, k) && \
-//@             (utf8.RuneLen(result[k]) == runeOff(s, k+1) - runeOff(s, k) || (result[k] == utf8.RuneError && runeOff(s, k+1) - runeOff(s, k) == 1)))
+//@   ensures fresh(result) && len(result) == utf8.RuneCount(s) && forall(k, 0, len(result), runeValid(result[k])) && decodedAs(s, result)
 
 //@ func DeleteRune
 //@   props C19
